@@ -530,6 +530,13 @@ func c12ThreadMain(s *c12Sched, k int) {
 	c.register(k, curGid())
 	th := c.threads[k]
 	var err error
+	defer func() {
+		// a panic of the code under test inside a schedule thread is an observation (in the server it kills the
+		// process: these calls run on plain goroutines), not the end of this harness process
+		if r := recover(); r != nil {
+			c.finish(k, fmt.Errorf("c12 panic: %v", r))
+		}
+	}()
 	if th.kind == "req" {
 		dir := s.shardDir(th.d)
 		err = s.sm.DoWithShard(s.col, "s"+strconv.Itoa(th.d), func(sh *shard.Shard) error {
@@ -879,6 +886,9 @@ func (s *c12Sched) result(hang bool, entries, fresh int) c12Result {
 			o.Res = 3
 		case th.err == nil:
 			o.Res = 0
+		case strings.HasPrefix(th.err.Error(), "c12 panic: "):
+			o.Res = 4
+			res.Note += " thread panicked: " + th.err.Error()
 		case th.kind == "req" && strings.Contains(th.err.Error(), "is already closed"):
 			o.Res = 1
 			s.feats["clean-error"] = true
